@@ -29,6 +29,10 @@
 //!            (C16-r5: the counterparty's STATIC minimum is a decoy <= the current minimum; the other decoy fields of the ChannelDetails —
 //!             counterparty.outbound_htlc_maximum_msat, outbound_capacity_msat, channel_value_satoshis, inbound_capacity_msat — are pure
 //!             functions of the limit, see `channel_details`; the Lean driver rebuilds the same record, `detailsOf`)
+//!   pubcap <htlc_maximum_msat> <capacity_sats|->   the REAL DirectedChannelInfo::effective_capacity of a channel direction of the graph and
+//!        max_htlc_from_capacity(…, 0) of it -> total <cap> <max> | adv <max>, then `max <n>`; the Lean driver answers from the TRANSLATED function
+//!   (C16-r5b) scorer 20 on a route line = the route came from build_route_from_hops along the nodes of the route found just before (not replayable);
+//!        guard probes (`guard_cases`), the raw-search comparison of add_random_cltv_offset (`cltv_offset_check`, hook get_route_raw) are impl-side only
 //!   firsthop <next_min> <next_limit> <cp_min|-> <cp_max|-> <outbound_capacity> <inbound_capacity> <value_sat> <in_min|-> <in_max|-> <announced> <scid|-> <alias|->
 //!        the accessors of the CandidateRouteHop::FirstHop the router builds from this ChannelDetails (hook verif_hooks::router::
 //!        first_hop_candidate_view) -> min <n> cap <exact n|other> scid <n|-> gscid <n|-> fees <b> <p> cltv <n>; the Lean driver answers from the
